@@ -24,7 +24,7 @@ for pid in props:
         "evidence_file": "/verif/evidence/%s.json" % pid,
         "replay_cmd_template": "./bin/check %s --replay {path}" % pid,
         "engine": "pyvc+harness",
-        "level_claimed": {"category": meta["level"], "text": meta["text"], "design_ref": "DESIGN.md §2 " + pid},
+        "level_claimed": {"category": meta["level"], "text": meta["text"] + ((" " + meta["structural"]) if meta.get("structural") else ""), "design_ref": "DESIGN.md §2 " + pid},
         "level_note": meta["note"],
         "technique": meta["technique"],
     })
